@@ -643,20 +643,44 @@ def operand_order(ctx):
         ("CompareOp", lambda: ["n", P("a"), P("b"), cm["<"]], ["a", "b"]),
         ("BooleanOp", lambda: ["n", P("a"), P("b"), bl["&&"]], ["a", "b"]),
     ]
+    classes = ["Pure"] + sorted(c for c in set(idx.subclasses("Pure")) | set(idx.subclasses("Hybrid")) if c in idx.classes and c != "Pure")
+    op_fields = ("arith_type", "op_type")
     for c, mk, exp in specs:
         fi = idx.resolve_method(c, "__init__")
         ctx.need(fi is not None, f"{c}.__init__ not found")
-
-        def once(i, c=c, mk=mk):
-            o = AObj(c, {}, label="node")
-            i.call_function(fi, mk(), self_obj=o)
-            return o
-        outs = Interp(idx).explore(once)
-        got = []
-        for o in outs:
-            ops = o.value.fields.get("ops") if o.kind == "return" and isinstance(o.value, AObj) else None
-            got.append([lab(x) for x in ops] if isinstance(ops, list) else str(o.value)[:40])
-        ctx.check(f"{c}: operands listed in evaluation order", got == [exp], str(exp), str(got), fn_where(idx, fi))
+        differing = []
+        base = None
+        # ... whatever kind of node an operand is (a literal in front is no reason to swap: the operator would have to be mirrored too)
+        for pos in range(len(exp)):
+            for ocls in classes:
+                def once(i, c=c, mk=mk, pos=pos, ocls=ocls):
+                    args = mk()
+                    k = [j for j, a in enumerate(args) if isinstance(a, AObj) and a.label in exp][pos]
+                    old = args[k]
+                    extra = {"value": 5, "inlined": True} if ocls in ("Number", "Sizeof", "Bool", "LetVar") else {"ops": [], "lets": []} if (ocls in idx.classes and "PureExec" in idx.mro(ocls)) else None
+                    args[k] = mk_pure(old.label, old.fields.get("value_type"), cls=ocls, fields=extra)
+                    o = AObj(c, {}, label="node")
+                    i.call_function(fi, args, self_obj=o)
+                    return o
+                try:
+                    outs = Interp(idx).explore(once)
+                except Exception as e:
+                    differing.append(f"operand {exp[pos]} a {ocls}: {type(e).__name__}")
+                    continue
+                got = set()
+                for o in outs:
+                    if o.kind != "return" or not isinstance(o.value, AObj):
+                        got.add("RAISE")
+                        continue
+                    ops = o.value.fields.get("ops")
+                    opm = next((o.value.fields[f].member for f in op_fields if isinstance(o.value.fields.get(f), EnumV)), None)
+                    got.add((tuple(lab(x) for x in ops) if isinstance(ops, list) else None, opm))
+                if ocls == "Pure" and pos == 0:
+                    base = got
+                    ctx.check(f"{c}: operands listed in evaluation order", {g[0] for g in got if g != "RAISE"} == {tuple(exp)}, str(exp), str(sorted(map(str, got))), fn_where(idx, fi))
+                elif got != base:
+                    differing.append(f"operand {exp[pos]} a {ocls}: {sorted(map(str, got))[:1]}")
+        ctx.check(f"{c}: operands and operator are stored as given, whatever kind of node an operand is", not differing, f"as for plain operands: {sorted(map(str, base or []))[:1]}", "; ".join(differing[:3]) or "ok", fn_where(idx, fi))
 
 
 @rule("R06.10", "C06", "evaluation order and return discipline: operator nodes list their operands in C evaluation order (the order pending effects are flushed in); bundled routine bodies return only where nothing can follow", min_instances=10)
